@@ -8,6 +8,7 @@ import (
 	"os"
 	"os/exec"
 	"strings"
+	"time"
 
 	"verifsim/core"
 	"verifsim/gen"
@@ -32,6 +33,19 @@ type HistCall struct {
 	Rebase bool     `json:"rebase"`
 	Filter string   `json:"filter,omitempty"`
 	Match  string   `json:"match,omitempty"`
+	// Rewrite: files of the tree rewritten in place right before this call,
+	// with modification time treeMtime + MtimeMs.
+	Rewrite []TreeFile `json:"rewrite,omitempty"`
+	MtimeMs int        `json:"mtime_ms,omitempty"`
+}
+
+// treeMtime is the modification time every file of a history case's tree gets.
+var treeMtime = time.Date(2026, 1, 1, 0, 0, 0, 0, time.UTC)
+
+func stampTree(files []TreeFile) {
+	for _, f := range files {
+		os.Chtimes(f.Path, treeMtime, treeMtime)
+	}
 }
 
 // C06HistExtra: the tree and the calls; the last call is the target.
@@ -46,7 +60,7 @@ type C06HistExtra struct {
 func runHist(bin string, ex *C06HistExtra, calls []HistCall) ([]string, error) {
 	var w []HistCallWire
 	for _, c := range calls {
-		w = append(w, HistCallWire{In: gen.Render(c.Doc).Bytes, Sim: c.Sim, PF: c.PF, Parse: c.Parse, Rebase: c.Rebase, Filter: c.Filter, Match: c.Match})
+		w = append(w, HistCallWire{In: gen.Render(c.Doc).Bytes, Sim: c.Sim, PF: c.PF, Parse: c.Parse, Rebase: c.Rebase, Filter: c.Filter, Match: c.Match, Rewrite: c.Rewrite, MtimeNs: treeMtime.Add(time.Duration(c.MtimeMs) * time.Millisecond).UnixNano()})
 	}
 	f, err := os.CreateTemp("", "clisim-hist-*.json")
 	if err != nil {
@@ -100,10 +114,21 @@ func checkProcHist(c *Case, cov *Cov) []*Violation {
 	if ex.Dir != "" {
 		defer os.RemoveAll(ex.Dir)
 	}
+	stampTree(ex.Files)
 	target := ex.Calls[len(ex.Calls)-1]
 	alone, err := runHist(bin, &ex, []HistCall{target})
 	if err != nil {
 		panic(err)
+	}
+	if len(target.Rewrite) > 0 {
+		// the first execution rewrote files: back to the tree as generated
+		if err := writeTreeFiles(ex.Dir, ex.Files); err != nil {
+			panic(err)
+		}
+		stampTree(ex.Files)
+		if cov != nil {
+			cov.Probe("source-rewritten-between-calls")
+		}
 	}
 	after, err := runHist(bin, &ex, ex.Calls)
 	if err != nil {
@@ -168,6 +193,20 @@ func postC06Hist(seed uint64, tier string, cov *Cov) ([]*Violation, map[string]a
 		t := mkCall(doc)
 		if r.Chance(0.6) {
 			t.Parse, t.Rebase = true, true
+		}
+		// the disk as a fault: source files rewritten in place between the
+		// earlier calls and the target (other parameter types on the same
+		// lines), 300 ms or 2 s after the tree's modification time. The
+		// target's output must be that of a fresh process over the tree as it
+		// is then.
+		if ex.Dir != "" && (i%3 == 1 || r.Chance(0.15)) {
+			for _, f := range ex.Files {
+				if f.Content == goSrc && r.Chance(0.7) {
+					t.Rewrite = append(t.Rewrite, TreeFile{Path: f.Path, Content: goSrcRewritten})
+				}
+			}
+			t.MtimeMs = []int{300, 2000}[r.Intn(2)]
+			t.Parse = true
 		}
 		ex.Calls = append(ex.Calls, t)
 		exj, _ := json.Marshal(ex)
